@@ -61,6 +61,10 @@ type lsSpec struct {
 	F    string   `json:"f,omitempty"`   // float bits (hex)
 	Obs  []string `json:"obs,omitempty"` // histogram observations (hex bits)
 	T    int64    `json:"t"`             // datum time, ns
+	// Expiry of the label value (`del after`), ns; 0 = none.  Store.Gc removes a
+	// label value once now - datum time > Expiry; until then it is store content
+	// and must be exported like any other.
+	Expiry int64 `json:"expiry,omitempty"`
 	// Lit: a datum.Buckets literal put into the metric with AppendLabelValue
 	// (bucket counts in the order of the metric's ranges), not built by Observe
 	Lit *litSpec `json:"lit,omitempty"`
@@ -149,7 +153,7 @@ func build(sp storeSpec) (*metrics.Store, [][]builtMetric) {
 						b.Count += l.Lit.Counts[i]
 					}
 					b.Time = l.T
-					if err := m.AppendLabelValue(&metrics.LabelValue{Labels: vals, Value: b}); err != nil {
+					if err := m.AppendLabelValue(&metrics.LabelValue{Labels: vals, Value: b, Expiry: time.Duration(l.Expiry)}); err != nil {
 						panic(err)
 					}
 					bm.ls = append(bm.ls, builtLS{l, vals, b})
@@ -170,6 +174,11 @@ func build(sp storeSpec) (*metrics.Store, [][]builtMetric) {
 				case "buckets":
 					for _, o := range l.Obs {
 						datum.Observe(d, unhx(o), ts)
+					}
+				}
+				if l.Expiry != 0 {
+					if err := m.ExpireDatum(time.Duration(l.Expiry), vals...); err != nil {
+						panic(err)
 					}
 				}
 				bm.ls = append(bm.ls, builtLS{l, vals, d})
@@ -405,7 +414,9 @@ func check(sp storeSpec, built [][]builtMetric, got []sample, scrapeErr error) [
 				ss := byKey[k]
 				where := fmt.Sprintf("metric %q prog %q labels %q", bm.m.Name, bm.m.Program, l.vals)
 				if len(ss) == 0 {
-					if badBefore {
+					if l.spec.Expiry > 0 {
+						add("label-set-with-expiry-not-exported", fmt.Sprintf("%s: no sample; the label value carries Expiry %v and datum time %v but is still in the store", where, time.Duration(l.spec.Expiry), l.datum.TimeUTC().UTC()))
+					} else if badBefore {
 						add("rest-of-metric-abandoned-after-unrepresentable-label-set", where+": no sample, an earlier label set of the same metric is unrepresentable")
 					} else {
 						add("sample-missing", where+": no sample")
@@ -632,6 +643,20 @@ func genStore(r *vlib.Rand) storeSpec {
 				if r.Chance(20) {
 					l.T = 1700000000000000000 + int64(r.Intn(1000000000))
 				}
+				// expiry: none / long elapsed (old datum, short expiry) / not elapsed
+				// (a century, or a datum stamped in the year 2100) - deterministic
+				// whatever the wall clock of the run is
+				switch r.Intn(6) {
+				case 0:
+					l.Expiry = int64(1 + r.Intn(3600000)) * 1000000 // <= 1 h, elapsed
+				case 1:
+					l.Expiry = 1 // 1 ns, elapsed
+				case 2:
+					l.Expiry = 100 * 365 * 24 * 3600 * 1000000000 // a century: not elapsed
+				case 3:
+					l.T = 4102444800000000000 + int64(r.Intn(1000000000)) // 2100-01-01: in the future
+					l.Expiry = int64(1+r.Intn(3600)) * 1000000000
+				}
 				switch typ {
 				case "int":
 					l.I = vlib.Pick(r, intPool)
@@ -733,6 +758,24 @@ func runStore(out *vlib.Out, sp storeSpec, stream string) {
 	if literal {
 		out.Count("stores-with-literal-buckets-datum")
 	}
+	elapsed, pending := false, false
+	for _, g := range sp.Groups {
+		for _, ms := range g {
+			for _, l := range ms.Ls {
+				if l.Expiry > 0 && l.Expiry < 3600000000001 && l.T < 4000000000000000000 {
+					elapsed = true
+				} else if l.Expiry > 0 {
+					pending = true
+				}
+			}
+		}
+	}
+	if elapsed {
+		out.Count("stores-with-label-set-past-its-expiry")
+	}
+	if pending {
+		out.Count("stores-with-label-set-before-its-expiry")
+	}
 }
 
 func corpus() []storeSpec {
@@ -740,7 +783,12 @@ func corpus() []storeSpec {
 	ls := func(v string, i int64) lsSpec { return lsSpec{Vals: []string{q(v)}, I: i, T: 1700000000123456789} }
 	desc := [][2]string{{hx(2), hx(4)}, {hx(1), hx(2)}, {hx(0), hx(1)}}
 	mid := [][2]string{{hx(1), hx(2)}, {hx(2), hx(math.Inf(1))}, {hx(0), hx(1)}}
+	exp := func(v string, i, t, e int64) lsSpec { return lsSpec{Vals: []string{q(v)}, I: i, T: t, Expiry: e} }
 	return []storeSpec{
+		// label values past, before and without their `del after` deadline: all are store content
+		{Kind: "store", Emit: true, Groups: [][]mSpec{{{Name: q("sess"), Prog: q("p.mtail"), Kind: "gauge", Type: "int", Keys: []string{q("id")},
+			Source: q("p.mtail:8:7-10"), Ls: []lsSpec{exp("elapsed", 1, 1600000000000000000, 60000000000), exp("century", 2, 1600000000000000000, 3153600000000000000),
+				exp("future", 3, 4102444800000000000, 1000000000), exp("none", 4, 1600000000000000000, 0)}}}}},
 		// ranges not ascending in the store: MakeBuckets + Observe, and a literal datum
 		{Kind: "store", Groups: [][]mSpec{{{Name: q("lat_desc"), Prog: q("p.mtail"), Kind: "histogram", Type: "buckets", Keys: []string{},
 			Source: q("p.mtail:6:11-18"), Ranges: desc, Ls: []lsSpec{{Vals: []string{}, Obs: []string{hx(0.5), hx(0.5), hx(0.5), hx(3)}, T: 9000000}}}},
@@ -781,7 +829,7 @@ func main() {
 	for i := 0; i < n; i++ {
 		runStore(out, genStore(r), "main")
 	}
-	out.Flush("stores of 0-6 metric names (1-3 programs per name) of every kind/type, 0-3 keys (incl. a key named prog and invalid label names), 0-5 label sets, histograms whose ranges are stored ascending, descending or shuffled (+Inf last, in the middle or appended by MakeBuckets) filled by observations (incl. non-finite) or given as literal datums, values negative, > 2^53, non-finite, random bit patterns, label values with quotes, backslashes, newlines and invalid UTF-8, prog label on/off, timestamps on/off; non-trivial when the store has >= 3 label sets over >= 2 exported kinds", false)
+	out.Flush("stores of 0-6 metric names (1-3 programs per name) of every kind/type, 0-3 keys (incl. a key named prog and invalid label names), 0-5 label sets, a third of them with an Expiry (elapsed, a century, datum stamped in 2100), histograms whose ranges are stored ascending, descending or shuffled (+Inf last, in the middle or appended by MakeBuckets) filled by observations (incl. non-finite) or given as literal datums, values negative, > 2^53, non-finite, random bit patterns, label values with quotes, backslashes, newlines and invalid UTF-8, prog label on/off, timestamps on/off; non-trivial when the store has >= 3 label sets over >= 2 exported kinds", false)
 }
 
 func replay(path string) {
